@@ -13,6 +13,7 @@ import time
 VERIF = os.path.dirname(os.path.dirname(os.path.abspath(__file__)))
 REPO = os.environ.get("VERIF_REPO", "/repo")
 VENV_PY = "/venv/bin/python"
+OUT = os.environ.get("VERIF_OUT", VERIF)        # where evidence/ and replays/ are written (mutant sweeps use a scratch dir)
 
 GLOBAL_ASSUMPTIONS = {
     "A1": "A1 machine arithmetic treated as mathematical: floats are reals (no rounding, overflow, NaN); float literals are read as their decimal value",
@@ -107,7 +108,7 @@ class Run(object):
 
     # -- replay files ----------------------------------------------------------------------------
     def write_replay(self, obligation, payload):
-        d = os.path.join(VERIF, "replays", self.pid)
+        d = os.path.join(OUT, "replays", self.pid)
         os.makedirs(d, exist_ok=True)
         h = hashlib.sha256((obligation.name + json.dumps(payload, sort_keys=True, default=str)).encode()).hexdigest()[:10]
         safe = "".join(ch if ch.isalnum() or ch in "-_." else "_" for ch in obligation.name)[:120]
@@ -120,7 +121,7 @@ class Run(object):
         body.update(payload)
         with open(path, "w") as f:
             json.dump(body, f, indent=1, default=str)
-        return os.path.relpath(path, VERIF)
+        return os.path.relpath(path, OUT)
 
     def violation(self, obligation, replay_path, native_failed, what=""):
         self.violations.append((obligation.name, replay_path, native_failed, what))
@@ -200,8 +201,8 @@ class Run(object):
         ev = dict(property_id=self.pid, tier=self.tier if self.tier in ("quick", "thorough") else "quick", seed=self.seed,
                   level=self.level, coverage=cov, assumptions=self.assumptions, wall_s=round(time.time() - self.t0, 2),
                   violations=len(self.violations))
-        os.makedirs(os.path.join(VERIF, "evidence"), exist_ok=True)
-        with open(os.path.join(VERIF, "evidence", "%s.json" % self.pid), "w") as f:
+        os.makedirs(os.path.join(OUT, "evidence"), exist_ok=True)
+        with open(os.path.join(OUT, "evidence", "%s.json" % self.pid), "w") as f:
             json.dump(ev, f, indent=1, default=str)
 
 
